@@ -182,9 +182,19 @@ _HANGS = [0]
 
 
 def run_impl(case):
-    global BADTAGS
-    if _HANGS[0] >= 6:      # the library spins (only ever seen on broken trees): do not spend 3 s on every case
+    if _HANGS[0] >= 6:      # the library spins (only ever seen on broken trees): do not spend seconds on every case
         return ["BudgetError", [], [], [], "skipped after repeated hangs"]
+    obs = _run_once(case, 3)
+    if obs[0] == "BudgetError" and len(obs[1]) <= BUDGET:
+        obs = _run_once(case, 30)       # a loaded machine is not a hang: once more with a generous time budget
+    if obs[0] == "BudgetError":
+        _HANGS[0] += 1
+    return obs
+
+
+def _run_once(case, seconds):
+    global BADTAGS
+    import signal
     LOG.clear()
     BADTAGS = {f"{lv}.{i}" for lv, L in enumerate(case["levels"]) for i in L["bad"]}
     scopes = build(case)
@@ -192,9 +202,8 @@ def run_impl(case):
     before = snapshot(case, scopes, ordered)
     target = scopes[0][1][case["target"]]
     ret = None
-    import signal
     old_handler = signal.signal(signal.SIGALRM, _alarm)
-    signal.alarm(3)
+    signal.alarm(seconds)
     try:
         if case["parents"] and case.get("call", False):
             r = target()
@@ -206,8 +215,6 @@ def run_impl(case):
         if isinstance(e, (KeyboardInterrupt, SystemExit)):
             raise
         res = type(e).__name__
-        if isinstance(e, BudgetError):
-            _HANGS[0] += 1
     finally:
         signal.alarm(0)
         signal.signal(signal.SIGALRM, old_handler)
